@@ -328,6 +328,9 @@ func (opts *Options) flagSet() {
 	flag.IntVar(&opts.SFlowUDPSize, "sflow-max-udp-size", opts.SFlowUDPSize, "sflow maximum UDP size")
 	flag.IntVar(&opts.SFlowWorkers, "sflow-workers", opts.SFlowWorkers, "sflow workers number")
 	flag.StringVar(&opts.SFlowTopic, "sflow-topic", opts.SFlowTopic, "sflow topic name")
+	// a type filter given on the command line replaces the one of the config file
+	fileSFlowTypeFilter := opts.SFlowTypeFilter
+	opts.SFlowTypeFilter = nil
 	flag.Var(&opts.SFlowTypeFilter, "sflow-type-filter", "sflow type filter")
 	flag.StringVar(&opts.SFlowMirrorAddr, "sflow-mirror-addr", opts.SFlowMirrorAddr, "sflow mirror destination address")
 	flag.IntVar(&opts.SFlowMirrorPort, "sflow-mirror-port", opts.SFlowMirrorPort, "sflow mirror destination port number")
@@ -389,6 +392,10 @@ func (opts *Options) flagSet() {
 	}
 
 	flag.Parse()
+
+	if len(opts.SFlowTypeFilter) == 0 {
+		opts.SFlowTypeFilter = fileSFlowTypeFilter
+	}
 }
 
 func (opts *Options) loadCfg() {
